@@ -337,6 +337,75 @@ func runISDIRTY(c *Ctx) {
 	} else {
 		c.Violation(fn, P.Pos(fn.Pos()), "IsDirty does not read the root node's dirty flag", "a modified tree can report clean (or a clean one dirty)")
 	}
+	// (2) where the root is not an in-memory node the answer is decided by what else the root can be: a name (the
+	// tree equals that persisted version: clean) or nil (empty: modified exactly when the 'emptied since the last
+	// persisted version' mark says so). Every value IsDirty can return on those paths is judged with the facts of
+	// the path it comes from.
+	type leaf struct {
+		v     ssa.Value
+		facts []ir.Fact
+		at    *ssa.BasicBlock
+	}
+	var leaves []leaf
+	var expand func(v ssa.Value, facts []ir.Fact, at *ssa.BasicBlock, d int)
+	expand = func(v ssa.Value, facts []ir.Fact, at *ssa.BasicBlock, d int) {
+		phi, isPhi := v.(*ssa.Phi)
+		if !isPhi || d > 4 {
+			leaves = append(leaves, leaf{v, facts, at})
+			return
+		}
+		for i, e := range phi.Edges {
+			pb := phi.Block().Preds[i]
+			fs := append([]ir.Fact(nil), ir.FactsAt(pb)...)
+			if iff, ok := pb.Instrs[len(pb.Instrs)-1].(*ssa.If); ok && pb.Succs[0] != pb.Succs[1] {
+				fs = append(fs, ir.ExpandFacts([]ir.Fact{{Cond: iff.Cond, Truth: pb.Succs[0] == phi.Block(), From: pb}})...)
+			}
+			expand(e, fs, pb, d+1)
+		}
+	}
+	for _, r := range ir.Returns(fn) {
+		expand(r.Results[0], ir.FactsAt(r.Block()), r.Block(), 0)
+	}
+	for _, lf := range leaves {
+		if ld, ok := lf.v.(*ssa.UnOp); ok && ld.Op == token.MUL {
+			if fa, ok := ld.X.(*ssa.FieldAddr); ok && isNodePtr(fa.X.Type()) {
+				continue // the in-memory root's own flag: clause (1)
+			}
+		}
+		rootNil, known := false, false
+		for _, f := range lf.facts {
+			if tv, tnn, ok := ir.NilTest(f.Cond); ok {
+				if _, isRoot := rootLoad(tv); isRoot {
+					rootNil, known = f.Truth != tnn, true
+				}
+			}
+		}
+		pos := P.InstrPos(lf.at.Instrs[len(lf.at.Instrs)-1])
+		isMark := false
+		if ld, ok := lf.v.(*ssa.UnOp); ok && ld.Op == token.MUL {
+			if fa, ok := ld.X.(*ssa.FieldAddr); ok && ir.IsPtrToNamed(fa.X.Type(), "Mast") {
+				if bt, ok := ld.Type().Underlying().(*types.Basic); ok && bt.Kind() == types.Bool {
+					isMark = true
+				}
+			}
+		}
+		cv, isConst := ir.ConstBool(lf.v)
+		switch {
+		case !known:
+			c.Violation(fn, pos, "IsDirty answers without telling a nil root from a name",
+				"on a path where the root is not an in-memory node the answer ("+pathDesc(ir.Sym(lf.v))+") is given without a test of root == nil: a name means 'equal to that persisted version' (clean), nil means empty (modified exactly when the tree was emptied since)")
+		case rootNil && isMark:
+			c.OK(pos, "IsDirty with a nil root", "answers with the emptied mark", false)
+		case rootNil:
+			c.Violation(fn, pos, "IsDirty with a nil root does not answer with the emptied mark",
+				"with a nil root IsDirty returns "+pathDesc(ir.Sym(lf.v))+": a tree whose last entry was deleted since it was loaded must report modified, a tree that was loaded or persisted empty must report clean — only the mark tells them apart")
+		case isConst && !cv:
+			c.OK(pos, "IsDirty with a name as root", "answers clean", false)
+		default:
+			c.Violation(fn, pos, "IsDirty with a name as root does not answer clean",
+				"the root is the name of a persisted version, so the tree equals it; IsDirty returns "+pathDesc(ir.Sym(lf.v))+" there")
+		}
+	}
 }
 
 // ---- THRESH ------------------------------------------------------------------------
